@@ -22,7 +22,7 @@ CLAIMS = {
          "ASCII word text; reference semantics of fuzzy/regex use independent implementations (own edit distance, the regex crate) on a fixed small vocabulary; JSON and facet fields are not generated here",
          "DESIGN.md §3 C03"),
  "C04": ("translation_validation",
-         "per-merge translation validation: canonical dump of the merged segment vs the dumps of its sources on generated indexes (proptest), plus gated merge-thread schedules judged against the sequential model",
+         "per-merge translation validation: canonical dump of the merged segment vs the dumps of its sources on generated indexes (proptest), plus gated merge-thread schedules and histories under an always-firing merge policy (committed and uncommitted segments) judged against the sequential model",
          "Every generated merge (choice and order of sources, deletes, stacked or re-compressed stores, sorted or unsorted) is validated as a translation of its inputs: per document stored fields, fast values, field norms, term frequencies and positions, and per term doc_freq; merges held at a generated storage operation while deletes are committed, rollbacks, delete-all and gc run are judged against the sequential model and the no-orphan predicate.",
          "the dump reads through tantivy's public readers (SegmentReader, store, fast fields, postings); a defect common to reader and merger that preserves dump equality is invisible; schedules: merge thread pre-empted at storage operations only",
          "DESIGN.md §3 C04"),
